@@ -373,6 +373,26 @@ def _r139(ck, prog, cfg):
     sb = sorts[0][0]
     # the returned value: collect(...) whose chain after the sort contains only into_iter/iter/take/take_while/copied/cloned
     rets = [(b, t) for b, t in sel.calls() if is_callee(t, r"Iterator>::collect::") and t["dest"] == {"l": 0}]
+    if not rets:
+        # the other prefix form: the sorted Vec itself is returned after `truncate(n)` (nothing else may touch it after the sort)
+        sorted_vec = src_of_operand(sel, sorts[0][1]["args"][0], through_calls=TRANSPARENT + (r"DerefMut>::deref_mut$", r"Deref>::deref$"))
+        ret_src = None
+        for b, i, st in sel.stmts():
+            if st["lhs"] == {"l": 0} and st["rv"]["k"] == "use":
+                ret_src = src_of_operand(sel, st["rv"]["a"])
+        same = ret_src is not None and sorted_vec.local is not None and ret_src.local == sorted_vec.local
+        after = []
+        vals, refs = lib2.value_aliases(sel, sorted_vec.local) if sorted_vec.local is not None else (set(), set())
+        for b, t in sel.calls():
+            if b != sb and sel.dominates(sb, b) and t["args"]:
+                a0 = op_place(t["args"][0]) if "c" not in t["args"][0] else None
+                if a0 is not None and a0["l"] in (vals | refs):
+                    after.append(callee(t).rsplit("::", 1)[-1].split("<")[0])
+        bad_after = [c for c in after if c not in ("truncate", "len", "is_empty", "deref", "deref_mut", "iter", "as_slice")]
+        ck.check(same and not bad_after, "R13.9", "selection:prefix-of-sorted-candidates" + _tag(cfg),
+                 "the sorted candidate list is %s before it is returned: the selection is no longer an oldest-first prefix"
+                 % ("changed by %s" % bad_after if bad_after else "not what is returned"), sel.where(), detail="sorted Vec returned after truncate(n): %s" % after)
+        return
     ck.check(len(rets) == 1 and sel.dominates(sb, rets[0][0]), "R13.9", "selection:collect-after-sort" + _tag(cfg),
              "the selection is not collected from the sorted candidate list", sel.where())
     if len(rets) != 1:
